@@ -26,19 +26,20 @@ import (
 //   - a block of an honest generator is never rejected as contradicting, and an applied block never contradicts its
 //     generator's most recent header inside the window of the chain it extends.
 type ForkChoiceMonitor struct {
-	W        *World
-	S        *Sim
-	M        *Monitor
-	Report   Reporter
-	received map[int]map[string]int // node -> block id -> slot in which it came in through the consensus loop
-	evs      map[int][]string       // node -> events since BeforeProcess ("n:<id>", "d:<id>")
-	infos    map[int][]string
-	seen     map[string][]refmodel.BFTHeader // generator -> distinct headers seen
-	queue    [][4]string
+	W         *World
+	S         *Sim
+	M         *Monitor
+	Report    Reporter
+	received  map[int]map[string]int // node -> (tip id -> slot in which it came in through the consensus loop); at most the current tip
+	recBefore map[int]recEntry
+	evs       map[int][]string // node -> events since BeforeProcess ("n:<id>", "d:<id>")
+	infos     map[int][]string
+	seen      map[string][]refmodel.BFTHeader // generator -> distinct headers seen
+	queue     [][4]string
 }
 
 func NewForkChoiceMonitor(w *World, m *Monitor, report Reporter) *ForkChoiceMonitor {
-	f := &ForkChoiceMonitor{W: w, S: w.S, M: m, Report: report, received: map[int]map[string]int{}, evs: map[int][]string{}, infos: map[int][]string{}, seen: map[string][]refmodel.BFTHeader{}}
+	f := &ForkChoiceMonitor{W: w, S: w.S, M: m, Report: report, received: map[int]map[string]int{}, recBefore: map[int]recEntry{}, evs: map[int][]string{}, infos: map[int][]string{}, seen: map[string][]refmodel.BFTHeader{}}
 	for _, n := range w.S.Nodes {
 		n := n
 		prev := n.OnEventSync
@@ -49,16 +50,36 @@ func NewForkChoiceMonitor(w *World, m *Monitor, report Reporter) *ForkChoiceMoni
 			switch e := msg.(type) {
 			case *consensus.EventBlockNewMessage:
 				f.evs[nn.ID] = append(f.evs[nn.ID], "n:"+string(e.Block.Header.ID))
+				// whenever the tip changes, what was known about the old tip's arrival is gone; processed() records
+				// the new tip's arrival if it came in through the consensus loop (a synced tip has no receive time)
+				delete(f.received, nn.ID)
 				f.onApplied(nn, e.Block)
 			case *consensus.EventBlockDeleteMessage:
 				f.evs[nn.ID] = append(f.evs[nn.ID], "d:"+string(e.Block.Header.ID))
+				// the block that becomes the tip again is read back from the database: its receive time is not kept
+				delete(f.received, nn.ID)
 			}
 		}
 		n.Log.OnInfo = func(msg string) { f.infos[n.ID] = append(f.infos[n.ID], msg) }
 	}
+	// the receive time of the tip lives in the executer's memory: a restarted node does not know it any more (and
+	// treats its tip as received in time)
+	prevRestart := w.OnRestart
+	w.OnRestart = func(n *Node) {
+		if prevRestart != nil {
+			prevRestart(n)
+		}
+		delete(f.received, n.ID)
+	}
 	w.S.Hooks.BeforeProcess = func(n *Node) {
 		f.evs[n.ID] = nil
 		f.infos[n.ID] = nil
+		delete(f.recBefore, n.ID)
+		for id, slot := range f.received[n.ID] {
+			if id == string(n.Tip().ID) {
+				f.recBefore[n.ID] = recEntry{id, slot}
+			}
+		}
 	}
 	w.S.Hooks.Processed = f.processed
 	prevAfter := w.S.Hooks.AfterNodeStep
@@ -89,15 +110,24 @@ func (f *ForkChoiceMonitor) processed(n *Node, b *blockchain.Block, from p2p.Pee
 		return
 	}
 	nowSlot := n.Exec.GetSlotNumber(uint32(simrtNowUnixFor(n)))
-	rec := f.received[n.ID]
-	if rec == nil {
-		rec = map[string]int{}
-		f.received[n.ID] = rec
-	}
+	// what the node can know about its tip's arrival: recorded when the tip came in through the consensus loop and kept
+	// only while that block stays the tip (recBefore is the state before this block was processed: the events of this
+	// very call have already cleared the map)
 	var tipSlot *int
-	if s, ok := rec[string(tipBefore.ID)]; ok {
+	if r, ok := f.recBefore[n.ID]; ok && r.id == string(tipBefore.ID) {
+		s := r.slot
 		tipSlot = &s
 	}
+	rec := map[string]int{}
+	if f.received[n.ID] != nil {
+		rec = f.received[n.ID]
+	} else if len(f.evs[n.ID]) == 0 {
+		// nothing changed: the record stays
+		if r, ok := f.recBefore[n.ID]; ok {
+			rec[r.id] = r.slot
+		}
+	}
+	f.received[n.ID] = rec
 	class := refmodel.Classify(f.fcHeader(n, tipBefore), f.fcHeader(n, b.Header), tipSlot, nowSlot)
 	simkit.Probe("c07_classified_" + strings.ReplaceAll(class.String(), " ", "_"))
 	evs := f.evs[n.ID]
@@ -141,6 +171,9 @@ func (f *ForkChoiceMonitor) processed(n *Node, b *blockchain.Block, from p2p.Pee
 		if len(evs) == 2 && evs[1] == "n:"+string(b.Header.ID) {
 			rec[string(b.Header.ID)] = nowSlot
 		}
+		if len(evs) == 2 && evs[1] == "n:"+string(tipBefore.ID) && tipSlot != nil {
+			rec[string(tipBefore.ID)] = *tipSlot // the original tip came back and keeps its arrival record
+		}
 	case refmodel.FCDifferentChain:
 		if !strings.Contains(infos, "Detected different chain") {
 			f.report("fork-choice", "better-chain-not-followed", desc)
@@ -164,6 +197,11 @@ func (f *ForkChoiceMonitor) validator(addr []byte) *Validator {
 	return nil
 }
 
+type recEntry struct {
+	id   string
+	slot int
+}
+
 type plainHeader struct{ h refmodel.BFTHeader }
 
 func (p plainHeader) Height() uint32             { return p.h.Height }
@@ -178,6 +216,9 @@ func (f *ForkChoiceMonitor) onApplied(n *Node, b *blockchain.Block) {
 	if parent := f.M.Tree.ByID[string(b.Header.PreviousBlockID)]; parent != nil {
 		if last, ok := parent.BFT.LastHeaderOf(h.Generator); ok {
 			simkit.Probe("c07_applied_block_checked_against_generators_last_header")
+			if v := f.validator(b.Header.GeneratorAddress); v != nil && v.Byzantine {
+				simkit.Probe("c07_applied_block_of_byzantine_generator_checked")
+			}
 			if refmodel.Contradicting(last, h) {
 				f.report("contradiction", "contradicting-header-applied", fmt.Sprintf("%s applied block %d/%s (maxHeightPrevoted %d, maxHeightGenerated %d) although it contradicts its generator's most recent header in the window (height %d, maxHeightPrevoted %d, maxHeightGenerated %d)",
 					n.Name, h.Height, short(b.Header.ID), h.MaxHeightPrevoted, h.MaxHeightGenerated, last.Height, last.MaxHeightPrevoted, last.MaxHeightGenerated))
